@@ -212,6 +212,22 @@ def stringToBytesArg (a : SysArg) (text : List Char) (returnInt : Bool) : Except
     | some s => stringToBytes s text returnInt
     | none => .error .valueError
 
+/-- The `return_int` argument as a caller can pass it: left out, or any object — of which only the
+    truth value matters (`if return_int:`, line 263): `1`, `'yes'`, `(0,)`, a truthy object count as
+    true; `0`, `''`, `()`, `None`, a falsy object as false. -/
+inductive FlagArg
+  | omitted
+  | obj (truthy : Bool)
+  deriving DecidableEq, Repr
+
+def flagTruth : FlagArg → Bool
+  | .omitted => defaultReturnInt
+  | .obj t => t
+
+/-- the whole call `string_to_bytes(text[, unit_system][, return_int])` -/
+def stringToBytesCall (a : SysArg) (text : List Char) (f : FlagArg) : Except Err Outcome :=
+  stringToBytesArg a text (flagTruth f)
+
 /-! ### QemuImgInfo._extract_bytes -/
 
 def isSpace (c : Char) : Bool := reSpaceAscii.contains c.toNat
